@@ -104,7 +104,7 @@ def b_second_pass(ctx):
     maxlen = 4 if ctx.tier == 'quick' else 5
     extra = [[100, -200, 300, -100, 200, -300, 50], [100, -200, 300, -100, 200, -300, -300], [100, -200, 100, -250, 200, 0, 200, -200],
              [0, 300, -100, 200, -300, 0], [-100, 200, -300, 300, -50], [200, -100, 300, -300, 100, 100], [100, 200, 300, -300, 0, 100]]
-    ctx.bound = f"all sequences over {{-300,...,300 step 100}} with >= 2 distinct values of length 2..{maxlen} plus {len(extra)} longer hand-picked ones; each with every single insertion of a non-reversal sample; extended Neuber law behind Binned"
+    ctx.bound = f"all sequences over {{-300,...,300 step 100}} with >= 2 distinct values of length 2..{maxlen} plus {len(extra)} longer hand-picked ones; each with every single insertion of a non-reversal sample; a third of the sequences also as two-point signals in 3 index layouts; extended Neuber law behind Binned"
     ctx.rule = "non-trivial: the periodic sequence has >= 2 closed cycles or the junction is not a plain reversal; distinct by (sequence, insertion)"
     ctx.exhaustive = True
     seqs = [list(s) for L in range(2, maxlen + 1) for s in itertools.product(vals, repeat=L) if len(set(s)) >= 2] + [[float(v) for v in s] for s in extra]
@@ -140,6 +140,38 @@ def b_second_pass(ctx):
             half = r1[~r1.is_closed_hysteresis.astype(bool)]
             if len(half) and not np.allclose(half.loads_min.astype(float), -half.loads_max.astype(float)):
                 ctx.fail(f'C04:half-hysteresis-not-symmetric:{cls}', f'half counted hysteresis of {y} not symmetric about zero', {'sequence': y})
+        # the same sequence as a multi-point signal (index levels load_step / node_id, two points with loads x1 and x0.5; the first listed point decides): load steps
+        # labelled 0..n-1, labelled 10, 20, ... and rows listed point by point (added after seeds C04-d / C10-d dropped sort=False from a groupby over the load steps /
+        # took every n-th row as the first point's history).  Load-step labels that are NOT ascending were tried as a fourth layout and withdrawn: whether a label or
+        # the row position orders the load steps is not defined by the statement, and the unchanged tree itself raises ValueError for about 0.5 % of such signals;
+        # that the junction helpers use the row order is the P obligation junction.scalar-samples
+        if len(seq) <= 4 and ctx._i % 3 == 0 or len(seq) > 4:
+            import pandas as pd
+            for layout in ('ascending-labels', 'gapped-labels', 'point-by-point'):
+                n = len(seq)
+                steps = list(range(n)) if layout != 'gapped-labels' else [10 * (k + 1) for k in range(n)]
+                if layout == 'point-by-point':
+                    sig = pd.concat({0: pd.Series(seq, index=pd.Index(steps, name='load_step')), 1: pd.Series([0.5 * v for v in seq], index=pd.Index(steps, name='load_step'))},
+                                    names=['node_id', 'load_step']).swaplevel()
+                else:
+                    idx = pd.MultiIndex.from_arrays([[st for st in steps for _ in (0, 1)], [0, 1] * n], names=['load_step', 'node_id'])
+                    sig = pd.Series([v * f for v in seq for f in (1.0, 0.5)], index=idx)
+                import pylife.stress.rainflow.fkm_nonlinear as FNM
+                import pylife.stress.rainflow.recorders as RFR
+                rec = RFR.FKMNonlinearRecorder()
+                det = FNM.FKMNonlinearDetector(recorder=rec, notch_approximation_law=law())
+                ctx.case(layout != 'ascending-labels', key=(tuple(seq), layout))
+                try:
+                    det.process_hcm_first(sig).process_hcm_second(sig)
+                    c = rec.collective
+                    c0 = c.xs(0, level='assessment_point_index') if 'assessment_point_index' in c.index.names else c
+                    r2 = c0[c0.run_index == 2]
+                    got = sorted(zip(r2.loads_min.astype(float), r2.loads_max.astype(float)))
+                except Exception as e:   # noqa
+                    ctx.fail(f'C04:multi-point-signal:{layout}:raises:{type(e).__name__}', f'HCM on the two-point signal ({layout}) of {seq} raises {type(e).__name__}: {str(e)[:150]}', {'sequence': seq, 'layout': layout})
+                    continue
+                if got != want or not bool(r2.is_closed_hysteresis.all()):
+                    ctx.fail(f'C04:multi-point-signal:{layout}:{classify(seq)}', f'pass 2 of {seq} given as a two-point signal ({layout}) records {got} for the first point, periodic rainflow gives {want}', {'sequence': seq, 'layout': layout})
     ctx.sample({'sequence': [100.0, -200.0, 300.0, -100.0, 200.0, -300.0], 'periodic_rainflow': periodic_rainflow([100, -200, 300, -100, 200, -300])})
 
 
@@ -261,6 +293,72 @@ def junction_flush(o):
     for label, fs in cl.items():
         o.prove(label, z3.And(*fs), kind='glue')
     o.note("multi-point (MultiIndex Series) input takes the pandas branch of the helper: bounded stand-in only")
+
+
+
+@obligation('C04', 'junction.scalar-samples', functions=[FN + '._scalar_samples'])
+def scalar_samples(o):
+    """_scalar_samples(samples): for single-point input the samples themselves; for a multi-point signal (Series with the index levels load_step / node_id) the load
+    history of the first listed point IN THE ORDER OF THE ROWS - the junction questions are asked about this sequence, and process() walks the rows in their order.
+    The signal is a ghost object whose groupby('load_step', sort=False).first() is that history, while any other grouping (sorted by label - the pandas default -,
+    another level, another aggregation) is an arbitrary other array."""
+    from pv.interp import Obj, PList, Builtin
+    from pv.sym import SV
+    hist = o.array('first_point_history', 'real')
+    other = o.array('label_sorted_history', 'real')
+    det = Obj(o.cls(FN))
+    log = []
+
+    class Arr:
+        def __init__(self, a):
+            self.a = a
+
+        def pv_getattr(self, attr):
+            if attr in ('to_numpy', 'flatten', 'ravel'):
+                return Builtin(attr, lambda *a_, **k: self)
+            if attr == 'values':
+                return self
+            raise AttributeError(attr)
+
+    class Grouped:
+        def __init__(self, ok):
+            self.ok = ok
+
+        def pv_getattr(self, attr):
+            if attr == 'first':
+                return Builtin('first', lambda *a_, **k: Arr(hist if self.ok else other))
+            return Builtin(attr, lambda *a_, **k: Arr(other))
+
+    class Signal:
+        """multi-point signal"""
+        def pv_isinstance(self, cls):
+            return str(getattr(cls, 'label', '') or getattr(cls, 'tag', '') or getattr(cls, 'name', '')).endswith('Series')
+
+        def pv_getattr(self, attr):
+            if attr == 'index':
+                class Ix:
+                    def pv_getattr(self_, a):
+                        if a == 'names':
+                            return PList(['load_step', 'node_id'])
+                        if a == 'nlevels':
+                            return 2
+                        raise AttributeError(a)
+                return Ix()
+            if attr == 'groupby':
+                def groupby(*a_, **k):
+                    by = a_[0] if a_ else k.get('by', k.get('level'))
+                    sort = k.get('sort', True)
+                    log.append((by, sort))
+                    return Grouped(by == 'load_step' and sort is False)
+                return Builtin('groupby', groupby)
+            raise AttributeError(attr)
+    r = o.run1(lambda: o.I.call(o.method(det, '_scalar_samples'), [Signal()]), label='_scalar_samples[multi-point]')
+    got = r.a if isinstance(r, Arr) else r
+    o.prove('multi-point signal: the result is the first point\'s history in row order (grouping by load_step with sort=False)', z3.BoolVal(got is hist), kind='glue')
+    s_ = o.array('samples', 'real')
+    r1 = o.run1(lambda: o.I.call(o.method(det, '_scalar_samples'), [s_]), label='_scalar_samples[array]')
+    q = z3.Int('q_')
+    o.prove('single-point input: the samples themselves', z3.And(r1.n == s_.n, z3.ForAll([q], z3.Implies(z3.And(q >= 0, q < s_.n), z3.Select(r1.a, q) == z3.Select(s_.a, q)))), kind='glue')
 
 
 META = {
